@@ -140,7 +140,7 @@ def inst_block(parent, name, kind, free, tag):
 def build(d, gated):
     hw = py4hw.HWSystem()
     free = []
-    c = types.SimpleNamespace(sys=hw, free=free, domain_of={}, enables={})
+    c = types.SimpleNamespace(sys=hw, free=free, domain_of={}, enables={}, drv_enable={})
     # an always-ungated instance in the base domain
     inst_block(hw, 'base', d['block'], free, 'base')
     for k in range(d['domains']):
@@ -181,6 +181,8 @@ def build(d, gated):
             drv = py4hw.ClockDriver(tag + '_clk', 25E6, enable=en)
         else:
             drv = py4hw.ClockDriver('gclk' if d.get('samename') else tag + '_clk', base=hw.clockDriver, enable=en)
+        c.drv_enable[id(drv)] = en          # what the harness asked for (not read back from the driver object)
+        c.keep = getattr(c, 'keep', []) + [drv]
         target = {'self': dut, 'parent': g1, 'grand': g2, 'nested': dut, 'nestedbase': dut,
                   'selfsib_a': dut, 'selfsib_b': dut, 'top': hw, 'topmutate': hw}[d['place']]
         if gated:
@@ -189,6 +191,7 @@ def build(d, gated):
             elif d['place'] == 'topmutate':
                 # the system's own default driver object gets the enable (instead of being replaced by a new driver)
                 hw.clockDriver.enable = en
+                c.drv_enable[id(hw.clockDriver)] = en
             else:
                 target.clockDriver = drv
         c.enables[tag] = en
@@ -197,6 +200,8 @@ def build(d, gated):
             en2 = hw.wire(tag + '_en_outer')
             free.append(en2)
             drv2 = py4hw.ClockDriver(tag + '_clk_outer', base=hw.clockDriver, enable=en2)
+            c.drv_enable[id(drv2)] = en2
+            c.keep.append(drv2)
             if d['place'] == 'nestedbase':
                 # the inner driver is derived from the outer gated one; a block still follows only the enable of its
                 # own (nearest) driver
@@ -272,6 +277,9 @@ def run_shard(d):
         held = set()
         for leaf in c.seq_leaves:
             drv = ref_domain(leaf)
+            en_w = c.drv_enable.get(id(drv), drv.enable)
+            if en_w is not drv.enable:
+                raise ForeignEnable(leaf.getFullPath(), drv.name, 'the driver object no longer carries the enable wire it was built with (%r)' % (drv.enable,))
             if drv.enable is not None and id(drv.enable) not in en_val:
                 # the enable of this leaf's driver is a wire of ANOTHER system: the driver object is shared between systems
                 raise ForeignEnable(leaf.getFullPath(), drv.name, drv.enable.getFullPath())
